@@ -25,6 +25,12 @@ func allSpecs() map[string]*PropSpec {
 		NotDecided:  "non-determinism from sources other than Go map order (time.Now in date completion by design; file-system order is sorted by the loader); ties in unstable sorts over already-deterministic input.",
 		Rules:       []func(*Ctx){ruleMapOrder},
 	})
+	add(&PropSpec{
+		ID:          "C02",
+		Explanation: "D-EXACT: every operation on decimal.Decimal in parser/analyzer/workspace/server (the path lexer value -> parseAmount -> CheckBalance/sumByCommodity -> message) is from the exact set (Add, Sub, Mul, Neg, Abs, IsZero, IsNegative, Cmp, String, NewFromString ...); T3: both analysis entry points call the balance check for every transaction and emit a diagnostic iff !Balanced; T4: the codes the analyzer writes are exactly the codes the server's filter switches on and UNBALANCED/MULTIPLE_INFERRED are gated by exactly the unbalanced-transactions setting; M-ORDER on the message builder.",
+		NotDecided:  "that separator normalisation, sign placement and cost conversion compute the intended number (value semantics of normalizeNumber, parseAmount, sumByCommodity); hledger's own balancing rule.",
+		Rules:       []func(*Ctx){ruleDecimalExact("internal/parser", "internal/analyzer", "internal/workspace", "internal/server"), ruleT3, ruleT4, ruleMapOrder},
+	})
 	return m
 }
 
